@@ -3,7 +3,7 @@ import core
 from props import collector_common as cc
 
 ID = 'C07'
-EXTRACT = ['collector', 'frames', 'collector_time']
+EXTRACT = ['collector', 'frames', 'collector_time', 'collector_deferred']
 LEAN_TARGETS = ['DeepModel.Props.C07']
 AUDIT = 'DeepModel/Audit/C07.lean'
 DRIVER = 'DeepModel/Driver/C05.lean'
@@ -43,7 +43,10 @@ def gen(rng, tier):
             yield cc.gen_case(rng, mock_frames=rng.randint(2, 3), frame_type='all_frame')
         elif r < 0.91:
             yield cc.gen_case(rng, nactions=2)
-        elif r < 0.96:
+        elif r < 0.925:
+            # a local of one frame is the f_locals dict of another frame of the chain (recorded finding D31, multi-frame shape)
+            yield cc.gen_frame_locals(rng)
+        elif r < 0.95:
             # the locals dict of the frame referenced from the frame itself or from a watch (recorded finding D31)
             c = cc.gen_case(rng, nobj=rng.choice([3, 6, 10]), stream='d31')
             k = rng.random()
@@ -182,9 +185,18 @@ def oracle(case, obs):
 
 
 def known_finding(case, obs):
-    if cc.refers_to_locals(case):
-        return D31
-    return None
+    """an instance of D31 = the case binds a frame's locals dict to a name / watch AND everything the identity oracle objects to
+    is of the one shape the model allows (`C07.c07_dangling_only_locals`): a reference without entry that was made for the
+    locals dict of a collected frame.  Anything else on such a case is a violation."""
+    if not cc.refers_to_locals(case):
+        return None
+    live = cc.live_of(obs)
+    if live is None or 'raised' in obs:
+        return None
+    for ai, s in cc.snapshots_by_action(case, obs):
+        if any(not x.endswith(cc.D31_TAG) for x in cc.judge_identity(case, obs, live, ai, s)):
+            return None
+    return D31
 
 
 model_request = cc.model_request
